@@ -40,6 +40,10 @@ def run(chk, st, tier):
         return
     n = 220 if tier == "quick" else 2500
     ws = Fm.gen_workloads(rng, shapes, n, maxrecs=12, pages=(1, 2, 3, 7, 1000))
+    # pages with hundreds of levels (run boundaries of the hybrid encoding), values beyond 1 KiB, pages beyond 32 KiB
+    ws += Fm.run_structured_workloads(rng, shapes, tier)
+    ws += Fm.long_string_workloads(rng, shapes, sizes=(1100, 3000) if tier == "quick" else (1100, 3000, 70000))
+    ws += Fm.big_workloads(shapes, codecs=(2,) if tier == "quick" else (2, 1, 0), plans=((6000, 9000),))
     res = Fm.exercise(chk, runner, shapes, ws, "C02", validate_level=1, read=False)
     Fm.correspondence(chk, res, what=("write",))
     ok = 0
